@@ -60,9 +60,9 @@ Proof.
       * destruct (zw && negb _ && rt_has); [|constructor]. constructor; [|constructor].
         unfold DGood. cbn. split; [lia|]. split; [lia|]. right. left. repeat split; try reflexivity. right. reflexivity.
   - cbn [dwf_step] in Hw. cbn [dstep]. destruct (last_of s st) as [n|] eqn:El; cbn [fst snd]; [|split; [exact He | constructor]].
-    split; [exact He|]. constructor; [|constructor]. unfold DGood. cbn. split; [lia|]. split; [lia|]. right. right. right.
+    split; [exact He|]. destruct rt_has; [|constructor]. constructor; [|constructor]. unfold DGood. cbn. split; [lia|]. split; [lia|]. right. right. right.
     pose proof (last_of_end s st n He El) as Hn. repeat split; try reflexivity; exact Hn.
-  - cbn [dwf_step] in Hw. cbn [dstep fst snd]. split; [exact He|]. rewrite forallb_forall in Hw. unfold ends_only in He. rewrite Forall_forall in He.
+  - cbn [dwf_step] in Hw. cbn [dstep fst snd]. split; [exact He|]. destruct rt_has; [|constructor]. rewrite forallb_forall in Hw. unfold ends_only in He. rewrite Forall_forall in He.
     apply Forall_forall. intros e Hin. apply in_map_iff in Hin. destruct Hin as [sn [Heq Hin]]. subst e.
     specialize (Hw sn Hin). specialize (He sn Hin). unfold DGood. cbn. split; [lia|]. split; [lia|]. right. right. right. repeat split; try reflexivity; exact He.
   - cbn. split; [exact He | constructor].
